@@ -363,8 +363,175 @@ theorem extractObject_eq_sh (v : V) (hv : v.isNilLike = false) : extractObject v
       cases es <;> rfl
   | _ => first | rfl | simp [V.isNilLike] at hv
 
-/- NOT done: `c02_object_spec` / `c02_record_spec`.  After unfolding, the law's side counts the keys KEPT through the members'
-   verdicts (`(fieldAsked.filter acc).length + …`) where `c02_object` has `keptCount`; they agree only under the other
-   conjuncts.  Object and record are tied to `Spec.accepts` by the correspondence run only (said so in the MANIFEST). -/
+theorem fieldAsked_length (es : List (V × V)) (shape : List Field) :
+    (shape.filterMap (fun (f : Field) =>
+        (lookupKey f.name es).map (fun x => (([Seg.key f.name], f.m, x) : List Seg × Mid × V)))).length
+      = (shape.filter (fun f => (lookupKey f.name es).isSome)).length := by
+  induction shape with
+  | nil => rfl
+  | cons f rest ih =>
+    cases hk : lookupKey f.name es <;> simp [hk, ih]
+
+theorem filter_length_of_all {α : Type} (q : α → Bool) (l : List α) (h : l.all q = true) :
+    (l.filter q).length = l.length := by
+  rw [List.filter_eq_self.2 (by simpa [List.all_eq_true] using h)]
+
+/-- **object**: the model of the code = the independent law. -/
+theorem c02_object_spec (cfg : Cfg) (env : Env) (m : Mods) (shape : List Field) (mode : Mode) (c : Option Mid)
+    (p : Partial) (cs : List SizeCk) (v : V) (hv : v.isNilLike = false) :
+    (run cfg env (.object m shape mode c p cs) v).isOk = Spec.accepts env (.object m shape mode c p cs) v := by
+  apply bool_eq_of_iff
+  rw [c02_object cfg env m shape mode c p cs v hv, extractObject_eq_sh v hv]
+  cases h : Spec.objectSh v with
+  | none => simp [Spec.accepts, Spec.shapeOf, hv, h]
+  | some es =>
+    simp only [Spec.accepts, Spec.shapeOf, hv, h, Option.map_some, Bool.false_and, Bool.false_or, Bool.not_false,
+      Bool.true_or, Bool.true_and, Bool.and_eq_true, List.all_append, Option.some.injEq, exists_eq_left']
+    have hK : (shape.filterMap (fun (f : Field) =>
+            (lookupKey f.name es).map (fun x => (([Seg.key f.name], f.m, x) : List Seg × Mid × V)))).all
+            (fun x => acc env x.2.1 x.2.2) = true →
+        ((match mode, c with
+            | .strict, _ => []
+            | _, some c => (es.filter (fun (e : V × V) => !isKnown shape e.1)).map
+                (fun (kx : V × V) => (([kx.1.seg], c, kx.2) : List Seg × Mid × V))
+            | _, none => []).all (fun x => acc env x.2.1 x.2.2)) = true →
+        ((shape.filterMap (fun (f : Field) =>
+            (lookupKey f.name es).map (fun x => (([Seg.key f.name], f.m, x) : List Seg × Mid × V)))).filter
+            (fun a => acc env a.2.1 a.2.2)).length +
+          (if (mode == Mode.passthrough) = true then
+            ((es.filter (fun (e : V × V) => !isKnown shape e.1)).filter
+              (fun (kx : V × V) => match c with | some c => acc env c kx.2 | none => true)).length
+           else 0) = keptCount shape mode es := by
+      intro a3 b2
+      unfold keptCount
+      rw [filter_length_of_all _ _ a3, fieldAsked_length]
+      congr 1
+      cases mode with
+      | strip => simp
+      | strict => simp
+      | passthrough =>
+        cases c with
+        | none => simp
+        | some cm =>
+          simp only [List.all_map] at b2
+          simp only [beq_self_eq_true, ↓reduceIte]
+          exact filter_length_of_all _ _ (by simpa [Function.comp_def] using b2)
+    -- the field part
+    have hF : (∀ f ∈ shape, objFieldOK env p es f = true) ↔
+        ((shape.filter (fun f => !Spec.has es f.name && !fieldOptional p f)).isEmpty = true ∧
+         (shape.filter (fun f => f.exactOptional && (match lookupKey f.name es with
+                                                      | some x => x.isNil | none => false))).isEmpty = true ∧
+         (shape.filterMap (fun (f : Field) =>
+            (lookupKey f.name es).map (fun x => (([Seg.key f.name], f.m, x) : List Seg × Mid × V)))).all
+            (fun x => acc env x.2.1 x.2.2) = true) := by
+      simp only [List.isEmpty_iff, List.filter_eq_nil_iff, List.all_eq_true, List.mem_filterMap]
+      constructor
+      · intro hh
+        refine ⟨?_, ?_, ?_⟩
+        · intro f hf; have := hh f hf; unfold objFieldOK at this
+          cases hk : lookupKey f.name es <;> simp_all [Spec.has]
+        · intro f hf; have := hh f hf; unfold objFieldOK at this
+          cases hk : lookupKey f.name es with
+          | none => simp
+          | some x =>
+            rw [hk] at this
+            cases he : f.exactOptional <;> cases hn : x.isNil <;> simp_all
+        · rintro a ⟨f, hf, ha⟩; have := hh f hf; unfold objFieldOK at this
+          cases hk : lookupKey f.name es with
+          | none => simp [hk] at ha
+          | some x => simp only [hk, Option.map_some, Option.some.injEq] at ha; subst ha; simp_all
+      · rintro ⟨h1, h2, h3⟩ f hf
+        unfold objFieldOK
+        cases hk : lookupKey f.name es with
+        | none => have := h1 f hf; simp_all [Spec.has]
+        | some x =>
+          have a := h2 f hf
+          have b := h3 ([Seg.key f.name], f.m, x) ⟨f, hf, by simp [hk]⟩
+          rw [hk] at a
+          cases he : f.exactOptional <;> cases hn : x.isNil <;> simp_all
+    have hU : (∀ e ∈ es, isKnown shape e.1 = false → unkOK env mode c e.2 = true) ↔
+        ((!(mode == Mode.strict && !(es.filter (fun (e : V × V) => !isKnown shape e.1)).isEmpty)) = true ∧
+         ((match mode, c with
+            | .strict, _ => []
+            | _, some c => (es.filter (fun (e : V × V) => !isKnown shape e.1)).map
+                (fun (kx : V × V) => (([kx.1.seg], c, kx.2) : List Seg × Mid × V))
+            | _, none => []).all (fun x => acc env x.2.1 x.2.2)) = true) := by
+      cases mode <;> cases c <;>
+        simp [unkOK, optAcc, List.all_eq_true, List.isEmpty_iff, List.filter_eq_nil_iff] <;>
+        (constructor <;> intro hh a b hab <;> have := hh a b hab <;> cases hk : isKnown shape a <;> simp_all)
+    constructor
+    · rintro ⟨f, u, sz⟩
+      obtain ⟨a1, a2, a3⟩ := hF.1 f
+      obtain ⟨b1, b2⟩ := hU.1 u
+      refine ⟨⟨⟨⟨a1, a2⟩, b1⟩, ?_⟩, a3, b2⟩
+      exact (congrArg (fun n => sizeOK cs n) (hK a3 b2)).trans sz
+    · rintro ⟨⟨⟨⟨a1, a2⟩, b1⟩, sz⟩, a3, b2⟩
+      refine ⟨hF.2 ⟨a1, a2, a3⟩, hU.2 ⟨b1, b2⟩, ?_⟩
+      exact (congrArg (fun n => sizeOK cs n) (hK a3 b2)).symm.trans sz
+
+/-! ### record -/
+
+theorem extractRecord_eq_sh (v : V) (hv : v.isNilLike = false) : extractRecord v = Spec.recordSh v := by
+  cases v with
+  | map k e es =>
+    cases es with
+    | none => simp [V.isNilLike] at hv
+    | some es => rfl
+  | ptr t' p =>
+    cases p with
+    | none => simp [V.isNilLike] at hv
+    | some w =>
+      cases t' <;> try rfl
+      rename_i k e
+      cases k <;> cases e <;> try rfl
+      cases w <;> try rfl
+      rename_i k' e' es
+      cases es <;> rfl
+  | _ => first | rfl | simp [V.isNilLike] at hv
+
+theorem forall_keyId_eq {P : Nat → Prop} (es : List (V × V)) :
+    (∀ (a : Nat) (x y : V), (x, y) ∈ es → keyId x = a → P a) ↔ ∀ x y, (x, y) ∈ es → P (keyId x) :=
+  ⟨fun h x y hm => h _ x y hm rfl, fun h _ x y hm e => e ▸ h x y hm⟩
+
+/-- **record**: the model of the code = the independent law. -/
+theorem c02_record_spec (cfg : Cfg) (env : Env) (m : Mods) (ks : KeySpec) (vm : Mid) (loose part : Bool)
+    (cs : List SizeCk) (v : V) (hv : v.isNilLike = false) :
+    (run cfg env (.record m ks vm loose part cs) v).isOk = Spec.accepts env (.record m ks vm loose part cs) v := by
+  apply bool_eq_of_iff
+  rw [c02_record cfg env m ks vm loose part cs v hv, extractRecord_eq_sh v hv]
+  cases h : Spec.recordSh v with
+  | none => simp [Spec.accepts, Spec.shapeOf, hv, h]
+  | some es =>
+    cases ks with
+    | none =>
+      simp [Spec.accepts, Spec.shapeOf, hv, h, recKeysOK, recSkip, keyMember, Spec.ownP, List.all_eq_true]
+    | enum allowed km =>
+      cases part <;> cases loose <;>
+        simp [-List.all_filterMap, List.mem_filterMap, Spec.accepts, Spec.shapeOf, hv, h, recKeysOK, recSkip, keyMember,
+          List.all_eq_true, List.isEmpty_iff, List.filter_eq_nil_iff, and_assoc, forall_keyId_eq] <;>
+        (intros; constructor
+         · intro hh a a1 b x x1 hm hk e1 e2 e3
+           subst e1 e2 e3
+           rcases hh x x1 hm with h' | h'
+           · simp [hk] at h'
+           · exact h'
+         · intro hh a b hm
+           cases hk : acc env km a
+           · exact Or.inl rfl
+           · exact Or.inr (hh _ _ _ a b hm hk rfl rfl rfl))
+    | schema km =>
+      cases loose <;>
+        simp [-List.all_filterMap, List.mem_filterMap, Spec.accepts, Spec.shapeOf, hv, h, recKeysOK, recSkip, keyMember,
+          List.all_eq_true] <;>
+        (intros; constructor
+         · intro hh a a1 b x x1 hm hk e1 e2 e3
+           subst e1 e2 e3
+           rcases hh x x1 hm with h' | h'
+           · simp [hk] at h'
+           · exact h'
+         · intro hh a b hm
+           cases hk : acc env km a
+           · exact Or.inl rfl
+           · exact Or.inr (hh _ _ _ a b hm hk rfl rfl rfl))
 
 end Gozod.C02
